@@ -1,7 +1,9 @@
 From Coq Require Import ZArith List.
-From Cspuz Require Import Lib.PyErr Core.Expr Core.Program Graph.GraphModel Graph.Cycle Graph.CycleMain.
+From Cspuz Require Import Lib.PyErr Core.Expr Core.Program Graph.GraphModel Graph.Cycle
+  Graph.CycleMain Graph.LineGraph Graph.CyclePrim Graph.CycleFrame Graph.CycleSpec Graph.CycleExamples.
 
-(* non-primitive _active_edges_single_cycle: on a well-formed graph with at least one vertex the model posts a program *)
+(* ---- non-primitive _active_edges_single_cycle (any multigraph, self-loops included) *)
+
 Theorem cycle_total : forall st acts g,
   wf_graph g = true -> 1 <= nv g -> length (edges g) <= length acts ->
   (forall e, In e acts -> is_constraint_like e = true) ->
@@ -9,7 +11,6 @@ Theorem cycle_total : forall st acts g,
 Proof. exact cycle_total. Qed.
 Print Assumptions cycle_total.
 
-(* ... which has a model extending the caller's assignment iff the chosen edges are empty or one simple cycle *)
 Theorem cycle_exact : forall gsem st acts g en st' passed,
   wf_graph g = true -> 1 <= nv g -> length (edges g) <= length acts ->
   flags_ok gsem st en acts -> in_bounds en st = true ->
@@ -18,7 +19,6 @@ Theorem cycle_exact : forall gsem st acts g en st' passed,
 Proof. exact cycle_exact. Qed.
 Print Assumptions cycle_exact.
 
-(* ... and in every such model the returned array marks exactly the visited vertices *)
 Theorem cycle_passed : forall gsem st acts g en st' passed en',
   wf_graph g = true -> 1 <= nv g -> length (edges g) <= length acts ->
   flags_ok gsem st en acts ->
@@ -29,3 +29,123 @@ Theorem cycle_passed : forall gsem st acts g en st' passed en',
     exists p, nth_error passed i = Some p /\ holds gsem en' p = visited g (pattern gsem en acts) i.
 Proof. exact cycle_passed. Qed.
 Print Assumptions cycle_passed.
+
+(* ---- Graph.line_graph (as a set of pairs) *)
+
+Theorem line_graph_connected : forall g A,
+  wf_graph g = true -> (connected (line_graph g) A <-> edge_connected g A).
+Proof. exact line_graph_connected. Qed.
+Print Assumptions line_graph_connected.
+
+(* ---- primitive forms; the native operator means gsem_c06 (connectivity of the decoded graph) *)
+
+Theorem avc_operand_layout : forall en acts g A,
+  wf_graph g = true -> length acts = nv g ->
+  (forall k, k < length acts -> eval gsem_c06 en (nth k acts PyNone) = Some (VB (A k))) ->
+  (forall k, length acts <= k -> A k = false) ->
+  holds gsem_c06 en (avc_node acts g) = connected_b g A.
+Proof. exact holds_avc. Qed.
+Print Assumptions avc_operand_layout.
+
+Theorem cycle_primitive_total : forall st acts g,
+  wf_graph g = true -> length acts = length (edges g) ->
+  (forall e, In e acts -> is_constraint_like e = true) ->
+  exists st' passed, post_cycle st acts g true = Ok (st', passed) /\ length passed = nv g.
+Proof. exact cycle_primitive_total. Qed.
+Print Assumptions cycle_primitive_total.
+
+Theorem cycle_primitive : forall st acts g en st' passed,
+  wf_graph g = true -> length acts = length (edges g) ->
+  flags_ok gsem_c06 st en acts -> in_bounds en st = true ->
+  post_cycle st acts g true = Ok (st', passed) ->
+  ((exists en', extends_sat gsem_c06 st st' en en') <-> single_cycle g (pattern gsem_c06 en acts)).
+Proof. exact cycle_primitive. Qed.
+Print Assumptions cycle_primitive.
+
+Theorem cycle_primitive_passed : forall st acts g en st' passed,
+  wf_graph g = true -> length acts = length (edges g) ->
+  flags_ok gsem_c06 st en acts ->
+  forall en', post_cycle st acts g true = Ok (st', passed) ->
+  extends_sat gsem_c06 st st' en en' ->
+  length passed = nv g /\
+  forall i, i < nv g ->
+    exists p, nth_error passed i = Some p /\
+              holds gsem_c06 en' p = visited g (pattern gsem_c06 en acts) i.
+Proof. exact cycle_primitive_passed. Qed.
+Print Assumptions cycle_primitive_passed.
+
+Theorem path_total : forall st acts g,
+  wf_graph g = true -> length acts = length (edges g) ->
+  (forall e, In e acts -> is_constraint_like e = true) ->
+  exists st' passed, post_path st acts g true = Ok (st', passed) /\ length passed = nv g.
+Proof. exact path_total. Qed.
+Print Assumptions path_total.
+
+Theorem path_primitive : forall st acts g en st' passed,
+  wf_graph g = true -> length acts = length (edges g) ->
+  flags_ok gsem_c06 st en acts -> in_bounds en st = true ->
+  post_path st acts g true = Ok (st', passed) ->
+  ((exists en', extends_sat gsem_c06 st st' en en') <-> single_path g (pattern gsem_c06 en acts)).
+Proof. exact path_primitive. Qed.
+Print Assumptions path_primitive.
+
+Theorem path_primitive_passed : forall st acts g en st' passed,
+  wf_graph g = true -> length acts = length (edges g) ->
+  flags_ok gsem_c06 st en acts ->
+  forall en', post_path st acts g true = Ok (st', passed) ->
+  extends_sat gsem_c06 st st' en en' ->
+  length passed = nv g /\
+  forall i, i < nv g ->
+    exists p, nth_error passed i = Some p /\
+              holds gsem_c06 en' p = visited g (pattern gsem_c06 en acts) i.
+Proof. exact path_primitive_passed. Qed.
+Print Assumptions path_primitive_passed.
+
+(* ---- BoolGridFrame forms *)
+
+Theorem cycle_frame : forall h w hor ver,
+  length hor = S h * w -> length ver = h * S w ->
+  from_grid_frame h w hor ver = Ok (frame_edges h w hor ver, frame_graph h w hor ver) /\
+  nv (frame_graph h w hor ver) = S h * S w /\
+  wf_graph (frame_graph h w hor ver) = true /\
+  length (frame_edges h w hor ver) = length (edges (frame_graph h w hor ver)) /\
+  (forall e a b, In (e, (a, b)) (combine (frame_edges h w hor ver) (edges (frame_graph h w hor ver)))
+                 <-> segment h w hor ver e a b) /\
+  (forall st prim,
+     active_edges_single_cycle st (AFrame h w hor ver) None prim =
+     match post_cycle st (frame_edges h w hor ver) (frame_graph h w hor ver) prim with
+     | Ok (st', p) => Ok (st', P2 (S h) (S w) p) | Err e => Err e end) /\
+  (forall st prim,
+     active_edges_single_path st (AFrame h w hor ver) None prim =
+     match post_path st (frame_edges h w hor ver) (frame_graph h w hor ver) prim with
+     | Ok (st', p) => Ok (st', P2 (S h) (S w) p) | Err e => Err e end).
+Proof. exact cycle_frame. Qed.
+Print Assumptions cycle_frame.
+
+Theorem cycle_frame_exact : forall h w hor ver,
+  length hor = S h * w -> length ver = h * S w ->
+  forall gsem st en st' res,
+  flags_ok gsem st en (hor ++ ver) -> in_bounds en st = true ->
+  active_edges_single_cycle st (AFrame h w hor ver) None false = Ok (st', res) ->
+  exists p, res = P2 (S h) (S w) p /\ length p = S h * S w /\
+    ((exists en', extends_sat gsem st st' en en') <->
+     single_cycle (frame_graph h w hor ver) (pattern gsem en (frame_edges h w hor ver))) /\
+    (forall en', extends_sat gsem st st' en en' ->
+       forall y x, y <= h -> x <= w ->
+         exists q, nth_error p (y * S w + x) = Some q /\
+                   holds gsem en' q =
+                   visited (frame_graph h w hor ver) (pattern gsem en (frame_edges h w hor ver)) (y * S w + x)).
+Proof. exact cycle_frame_exact. Qed.
+Print Assumptions cycle_frame_exact.
+
+(* ---- the executable specification run by the harness is the relational one *)
+
+Theorem single_cycle_b_spec : forall g A,
+  wf_graph g = true -> (single_cycle_b g A = true <-> single_cycle g A).
+Proof. exact single_cycle_b_spec. Qed.
+Print Assumptions single_cycle_b_spec.
+
+Theorem single_path_b_spec : forall g A,
+  wf_graph g = true -> (single_path_b g A = true <-> single_path g A).
+Proof. exact single_path_b_spec. Qed.
+Print Assumptions single_path_b_spec.
